@@ -1,9 +1,12 @@
 /* C12: secp256k1_musig_partial_sig_agg (BIP-327 PartialSigAgg), real code incl. real scalar_add, for n <= 3 partial
  * signatures (BOUNDED: the two loops over the caller-supplied count are unwound), every pointer NULL or an object with
- * arbitrary bytes.   s = s_part + s_1 + ... + s_n mod n ;  sig64 = x(R) || s ;  n = 0 or a NULL entry => illegal. */
+ * arbitrary bytes.  Session and partial signatures are OPAQUE: decoded with the TU's own *_load functions (audit #17); nothing is
+ * demanded about sig64 when the call fails (audit #16).
+ *   s = s_part + s_1 + ... + s_n mod n ;  sig64 = x(R) || s ;  n = 0 or a NULL entry => illegal. */
 #include "assumed.h"
 #include "src/secp256k1.c"
 #include "post.h"
+#include "decode.h"
 size_t g_k;
 #define NS 3
 void h_psig_agg(void) {
@@ -11,23 +14,21 @@ void h_psig_agg(void) {
     INPUT(secp256k1_musig_partial_sig, p0); INPUT(secp256k1_musig_partial_sig, p1); INPUT(secp256k1_musig_partial_sig, p2); INPUT(secp256k1_musig_session, sess);
     INPUT_ARR(unsigned char, sig64, 64);
     INPUT(size_t, n); INPUT(_Bool, s0); INPUT(_Bool, s1); INPUT(_Bool, s2); INPUT(_Bool, use_sig); INPUT(_Bool, use_sess); INPUT(_Bool, use_arr); INPUT(size_t, k);
-    const secp256k1_musig_partial_sig *arr[NS]; unsigned char sig0[64];
+    const secp256k1_musig_partial_sig *arr[NS]; secp256k1_scalar sv[NS]; int okv[NS]; secp256k1_musig_session_internal si;
     int ret, anynull = 0, badmagic = 0, ok_sess; size_t i;
+    dec_init(); ok_sess = dec_session(&si, &sess); okv[0] = dec_psig(&sv[0], &p0); okv[1] = dec_psig(&sv[1], &p1); okv[2] = dec_psig(&sv[2], &p2);
     verif_ctx_init(&ctx);
     __CPROVER_assume(n <= NS);                                   /* BOUNDED stand-in */
     arr[0] = s0 ? &p0 : NULL; arr[1] = s1 ? &p1 : NULL; arr[2] = s2 ? &p2 : NULL;
     g_k = k; __CPROVER_assume(g_k < 32);
-    memcpy(sig0, sig64, 64);
-    ok_sess = sess.data[0] == 0x9d && sess.data[1] == 0xed && sess.data[2] == 0xe9 && sess.data[3] == 0x17;
-    for (i = 0; i < NS; i++) if (i < n) { if (arr[i] == NULL) anynull = 1; else if (!(arr[i]->data[0] == 0xeb && arr[i]->data[1] == 0xfb && arr[i]->data[2] == 0x1a && arr[i]->data[3] == 0x32)) badmagic = 1; }
+    for (i = 0; i < NS; i++) if (i < n) { if (arr[i] == NULL) anynull = 1; else if (!okv[i]) badmagic = 1; }
 
     ret = secp256k1_musig_partial_sig_agg(&ctx, use_sig ? sig64 : NULL, use_sess ? &sess : NULL, use_arr ? arr : NULL, n);
 
     __CPROVER_assert(ret == 0 || ret == 1, "C12 partial_sig_agg: returns 0 or 1");
     __CPROVER_assert(g_error == 0, "C12 partial_sig_agg: error callback never invoked");
-    if (ret == 0) __CPROVER_assert(sig64[g_k] == sig0[g_k] && sig64[32 + g_k] == sig0[32 + g_k], "C12 partial_sig_agg: no signature written on failure");
     if (!use_sig || !use_sess || !use_arr || n == 0 || anynull || !ok_sess || badmagic) {
-        __CPROVER_assert(ret == 0 && g_illegal == 1, "C12 partial_sig_agg: NULL argument, n = 0, NULL entry or object without its magic is illegal, returns 0");
+        __CPROVER_assert(ret == 0 && g_illegal == 1, "C12 partial_sig_agg: NULL argument, n = 0, NULL entry or uninitialised object is illegal, returns 0");
         if (n == 0 && use_sig && use_sess && use_arr) REACH("partial_sig_agg n = 0");
         if (n == 3 && use_sig && use_sess && use_arr && ok_sess && !anynull && badmagic) REACH("partial_sig_agg bad magic in a signature");
         return;
@@ -35,12 +36,11 @@ void h_psig_agg(void) {
     __CPROVER_assert(ret == 1 && g_illegal == 0, "C12 partial_sig_agg: succeeds for initialised objects");
 #ifndef VERIF_NATIVE
     {
-        wide nn = N_(), acc = be256(&sess.data[101]);
-        if (acc >= nn) acc -= nn;
-        for (i = 0; i < NS; i++) if (i < n) { wide t = be256(&arr[i]->data[4]); if (t >= nn) t -= nn; acc += t; if (acc >= nn) acc -= nn; }
+        wide nn = N_(), acc = sval(&si.s_part);
+        for (i = 0; i < NS; i++) if (i < n) { acc += sval(&sv[i]); if (acc >= nn) acc -= nn; }
         __CPROVER_assert(be256(&sig64[32]) == acc, "C12 partial_sig_agg: s = s_part + sum of the partial signatures mod n");
-        __CPROVER_assert(sig64[g_k] == sess.data[5 + g_k], "C12 partial_sig_agg: first half is the session's final nonce x");
-        if (n == 3 && be256(&sess.data[101]) != 0) REACH("partial_sig_agg three signatures plus tweak term");
+        __CPROVER_assert(sig64[g_k] == si.fin_nonce[g_k], "C12 partial_sig_agg: first half is the session's final nonce x");
+        if (n == 3 && sval(&si.s_part) != 0) REACH("partial_sig_agg three signatures plus tweak term");
         if (n == 1) REACH("partial_sig_agg one signature");
     }
 #endif
